@@ -302,7 +302,7 @@ theorem clone_spec (tx : Tx) (h : tx.wf) (hamb : ¬ tx.ambiguous) :
     | nil => rfl
     | cons i is ih => simp [ih]
 
-theorem serOptScript_getD' (s : Option Bytes) : serOptScript s = varintEnc (optLen s) ++ s.getD [] :=
+theorem serOptScript_getD_eq (s : Option Bytes) : serOptScript s = varintEnc (optLen s) ++ s.getD [] :=
   serOptScript_getD s
 
 /-- what Tx.Clone returns: the same transaction with nil unlocking scripts replaced by empty ones -/
